@@ -524,7 +524,8 @@ _FIELD_DEPS = {}
 def field_dependencies(repo):
     """record field -> key roles its value varies with, read off the arguments Orchestrator.fit_predict passes to
     save_predictions (provenance over the components yielded by _iter)."""
-    key = id(repo)
+    key = "deps"
+    _FIELD_DEPS = repo.__dict__.setdefault("_c19_field_deps", {})  # per Repo object (ids of collected repos are reused)
     if key in _FIELD_DEPS:
         return _FIELD_DEPS[key]
     from ..report import Ctx
